@@ -13,6 +13,7 @@ limit per call.
 -/
 import PkgsrcVerif.Lemmas.Summary
 import PkgsrcVerif.Lemmas.DeweyIdx
+import PkgsrcVerif.Lemmas.StreamRange
 import PkgsrcVerif.Props.C02
 import PkgsrcVerif.Props.C04
 open M L
@@ -181,3 +182,17 @@ theorem C17_ascii_delimiter_slices (pre suf : Str) (c : Char) (hc : c.toNat < 0x
 /-- … and a slice taken strictly INSIDE a multi-byte character is the panic outcome, so the
     statement above is not true for free -/
 example : sliceFrom ['a', 'é', 'b'] 2 = none ∧ sliceFrom ['a', 'é', 'b'] 3 = some ['b'] := by decide
+
+/-- **The slices of `SummaryStream::write` are in range, whatever bytes arrive.**
+    `&self.buf[..e.valid_up_to()]`, `&valid[..last + 2]` and `split_off(slen)`: the length of the
+    valid UTF-8 prefix never exceeds the buffer, and the end of the last blank-line separator found
+    in that prefix lies inside it (hence inside the buffer). -/
+theorem C17_stream_slices_in_range (st : Stream) (c : Bytes) :
+    (utf8 (st.buf ++ c)).1 ≤ (st.buf ++ c).length ∧
+    ∀ k, lastSepEnd ((st.buf ++ c).take (utf8 (st.buf ++ c)).1) = some k →
+      k ≤ (utf8 (st.buf ++ c)).1 ∧ k ≤ (st.buf ++ c).length := by
+  have h1 := utf8_valid_le (st.buf ++ c)
+  refine ⟨h1, fun k hk => ?_⟩
+  have := lastSepEnd_le _ k hk
+  rw [List.length_take] at this
+  omega
